@@ -66,6 +66,9 @@ func writeManifest() {
 			"technique":  spec.Technique,
 		})
 	}
+	if na == nil {
+		na = []map[string]any{}
+	}
 	m := map[string]any{
 		"version":   1,
 		"setup_cmd": "./setup.sh",
@@ -82,7 +85,7 @@ func writeManifest() {
 		},
 		"checks":         checks,
 		"not_applicable": na,
-		"notes":          "All checks are generated-input search with explicit oracles (property-based testing / fuzzing). Exit 0 held, 1 violation (VIOLATION line), 2 inconclusive (infrastructure). Known findings: /verif/known_findings.json.",
+		"notes":          "All checks are generated-input search with explicit oracles (property-based testing / fuzzing). Exit 0 held, 1 violation (VIOLATION line), 2 inconclusive (infrastructure). Known findings: /verif/known_findings.d/*.json (one file per property).",
 	}
 	b, _ := json.MarshalIndent(m, "", " ")
 	if err := os.WriteFile(filepath.Join(root, "MANIFEST.json"), append(b, '\n'), 0o644); err != nil {
